@@ -100,7 +100,7 @@ func checkProperty(id, tier, repo string, seed int) int {
 		if err != nil {
 			// A tree that does not load cannot be certified: report as a violation of the loader rule.
 			res := &propResult{prop: id, explanation: pd.Explanation, assumptions: pd.Assumptions,
-				obs: []Obligation{{Rule: id + "-load", Construct: "load:" + cf[0] + "/" + cf[1], Pos: "-", Verdict: "undecided", Detail: err.Error()}},
+				obs:   []Obligation{{Rule: id + "-load", Construct: "load:" + cf[0] + "/" + cf[1], Pos: "-", Verdict: "undecided", Detail: err.Error()}},
 				rules: []*ruleInfo{{ID: id + "-load", Doc: "the tree must load and type-check", Min: 1, Count: 1}}}
 			return emit(res, tier, seed, start, true)
 		}
